@@ -117,6 +117,14 @@ def evalWm (st : DState) (name : String) (t : List String) (impl : String) : Eva
       | "it" :: rest =>
         let (pre, calls) := splitColon rest
         (match pre with
+         | ["into"] =>
+           -- owning iterator: forward calls over the items
+           let get := fun i => match w.get m i with | .ok x => x | .fault _ => 0
+           let toCall := fun (c : String) => match c.front with
+             | 'n' => ICall.next | 'N' => ICall.nth (num (c.drop 1).toString) | _ => ICall.len
+           let showO := fun (o : IOut Nat) => match o with | .item a => s!"s{a}" | .none => "-" | .len n => s!"l{n}"
+           res (" ".intercalate ((cursorRun get ⟨0, w.len⟩ (calls.map toCall)).map showO))
+             (some (dequeRun (fun x => s!"s{x}") V calls)) "wm.it.into"
          | ["items"] =>
            let get := fun i => match w.get m i with | .ok x => x | .fault _ => 0
            let toCall := fun (c : String) => match c.front with
